@@ -383,16 +383,20 @@ def space_mutate(ck, hexe, gl, pool):
             if not cls.startswith("parse-error") or (lm and int(lm.group(1)) != hline):
                 ck.violation("mutate-exec|%s|binding|harness-refuses-differently" % kind,
                              "%s %s@%d byte#%d: in-process class %d line %d, executable: %s %s" % (seed, kind, pos, b, hcls, hline, cls, detail), replay=rp, files=files)
-    if thorough:
-        space_mutate_other_tools(ck, gl, pool)
+    # quick: the unmutated seeds and every prefix; thorough: every substitution as well
+    space_mutate_other_tools(ck, gl, pool, thorough)
 
 
-def space_mutate_other_tools(ck, gl, pool):
-    """gama-g3 input -> gama-g3; adjustment XML -> compare-xyz, gama-local-deformation."""
+G3_SEEDS = {"gama-g3": "g3-seed.xml", "gama-g3#multi-cov": "g3-seed2.xml"}   # label -> seed document
+
+
+def space_mutate_other_tools(ck, gl, pool, thorough=True):
+    """gama-g3 input -> gama-g3 (two seed documents: one covariance matrix at the end of <obs>; a cluster
+    assembled from several covariance pieces); adjustment XML -> compare-xyz, gama-local-deformation."""
     g3 = vlib.exe("asan", "gama-g3")
     cmpx = vlib.exe("asan", "compare-xyz")
     deform = vlib.exe("asan", "gama-local-deformation")
-    g3seed = open(os.path.join(DATA, "g3-seed.xml"), "rb").read()
+    g3seeds = {lab: open(os.path.join(DATA, fn), "rb").read() for lab, fn in G3_SEEDS.items()}
     lev = os.path.join(DATA, "adj-seed.gkf.in")
     adj = os.path.join(ck.tmp, "adj-seed.xml")
     rc, out, err, dt = run_cmd([gl, lev, "--xml", adj])
@@ -401,16 +405,18 @@ def space_mutate_other_tools(ck, gl, pool):
         ck.violation("mutate-other|setup|no-adjustment-xml", "gama-local --xml produced nothing for data/c11/adj-seed.gkf.in rc=%s" % rc)
         return
     jobs = []
-    for tool, seed in (("gama-g3", g3seed), ("compare-xyz", adjseed), ("gama-local-deformation", adjseed)):
+    seeds = dict(g3seeds); seeds["compare-xyz"] = adjseed; seeds["gama-local-deformation"] = adjseed
+    for tool, seed in seeds.items():
         jobs.append((tool, "seed", 0, 0))
         for p in range(len(seed)):
             jobs.append((tool, "prefix", p, 0))
+        if not thorough: continue
         for p in range(len(seed)):
             for b in range(12):
                 if seed[p:p + 1] != SUBST[b]:
                     jobs.append((tool, "subst", p, b))
-    seeds = {"gama-g3": g3seed, "compare-xyz": adjseed, "gama-local-deformation": adjseed}
-    exes = {"gama-g3": g3, "compare-xyz": cmpx, "gama-local-deformation": deform}
+    exes = {"compare-xyz": cmpx, "gama-local-deformation": deform}
+    for lab in g3seeds: exes[lab] = g3
     vlib.log("[C11 mutate] other tools: %d runs" % len(jobs))
 
     def one(k):
@@ -421,7 +427,7 @@ def space_mutate_other_tools(ck, gl, pool):
         p = os.path.join(ck.tmp, "o-%d.xml" % k)
         with open(p, "wb") as fh:
             fh.write(m)
-        if tool == "gama-g3":
+        if tool in G3_SEEDS:
             cmd = [exes[tool], p, os.path.join(ck.tmp, "o-%d.out" % k)]
         elif tool == "compare-xyz":
             cmd = [exes[tool], adj, p]
@@ -439,7 +445,8 @@ def space_mutate_other_tools(ck, gl, pool):
         if res is None:
             ck.exhaustive = False
             continue
-        tool, kind, pos, b = jobs[k]
+        label, kind, pos, b = jobs[k]
+        tool = label.split("#")[0]
         rc, out, err = res
         ck.count("states"); ck.count("transitions"); ck.count("other_tool_runs")
         s = sanitizer(err)
@@ -465,7 +472,7 @@ def space_mutate_other_tools(ck, gl, pool):
         ck.outcome("%s %s -> %s" % (tool, kind, cls))
         if vsig:
             ck.violation("mutate-other|%s|%s" % (tool, vsig), "%s %s@%d byte#%d rc=%s %s" % (tool, kind, pos, b, rc, (err or out)[-300:]),
-                         replay={"kind": "other", "tool": tool, "mutant": [kind, pos, b]})
+                         replay={"kind": "other", "tool": label, "mutant": [kind, pos, b]})
 
 
 # --------------------------------------------------------------------------- space 4
@@ -570,11 +577,11 @@ def do_replay(ck, path, hexe):
         print("replay: rc=%s class=%s %s" % (rc, cls, detail))
         sys.exit(1 if (vsig or cls.startswith("parse-error")) else 0)
     if case.get("kind") == "other":
-        tool = case["tool"]; kind, pos, b = case["mutant"]
+        label = case["tool"]; tool = label.split("#")[0]; kind, pos, b = case["mutant"]
         gl = vlib.exe("asan", "gama-local")
         adj = os.path.join(ck.tmp, "adj-seed.xml")
         run_cmd([gl, os.path.join(DATA, "adj-seed.gkf.in"), "--xml", adj])
-        seed = open(os.path.join(DATA, "g3-seed.xml"), "rb").read() if tool == "gama-g3" else open(adj, "rb").read()
+        seed = open(os.path.join(DATA, G3_SEEDS[label]), "rb").read() if tool == "gama-g3" else open(adj, "rb").read()
         p = os.path.join(ck.tmp, "mutant.xml")
         open(p, "wb").write(mutant(seed, kind, pos, b))
         cmd = [vlib.exe("asan", tool)] + ([p, os.path.join(ck.tmp, "out")] if tool == "gama-g3" else [adj, p] if tool == "compare-xyz" else [adj, p, "--text", os.path.join(ck.tmp, "out")])
@@ -643,7 +650,7 @@ def main():
         "states = canonical parser states + distinct documents/mutants/literals/command lines; transitions = parser events replayed + executable runs"
         % (ck.counters.get("automaton_events", "?"), "with 1..2 clusters x 1..2 observations" if th else "with 1 cluster x 1..2 observations and 2 clusters x 1 observation",
            "8 valid + 5 invalid", "" if th else " (stride 3 plus the last 64)", "" if th else " (stride 3)", 16 if th else 48,
-           "; gama-g3 / compare-xyz / gama-local-deformation: every prefix and substitution of their seed" if th else "", 6 if th else 5),
+           "; gama-g3 (2 seed documents: one covariance matrix per <obs>; a cluster assembled from three covariance pieces) / compare-xyz / gama-local-deformation: the seed and every prefix" + (" and every substitution" if th else ""), 6 if th else 5),
         assumptions=[
             "documented exit statuses of gama-local are {0,1,2,3} as read from main(); with XML output an error document is written and the status is 0",
             "hang = more than %d s CPU (ulimit -t) or %d s wall for an executable, more than 250 ms CPU for one in-process xml_parse call (an ordinary call takes < 0.1 ms)" % (CPU_LIMIT_S, WALL_LIMIT_S),
